@@ -78,6 +78,11 @@ func init() {
 				t := m.DB.VerifRT().VerifTable()
 				p := sys.Cl.PartID("d", sys.Keys[len(sys.Keys)-1])
 				fmt.Printf("    %s boot=%v part%d owners=%s backups=%s pending=%d\n", m.Name, m.DB.VerifRT().IsBootstrapped(), p, namesOf(t[p].Owners), namesOf(t[p].Backups), sys.Cl.Pending(m))
+				if os.Getenv("DBG_ALLPARTS") != "" {
+					for q := range t {
+						fmt.Printf("      part%d owners=%s\n", q, namesOf(t[q].Owners))
+					}
+				}
 			}
 			for _, k := range sys.Keys {
 				for _, cp := range sys.Cl.Copies("d", k) {
